@@ -1,5 +1,6 @@
 import RisorModel.Util
 import RisorModel.C19.Model
+import RisorModel.C19.Wide
 /-!
 Line-protocol front end of the C19 model (requests after the leading `C19` field).
 
@@ -171,6 +172,7 @@ def goValOf : Val → Option GoVal
   | .bool b => some (.bool b)
   | .list xs => (Vals.toStrs xs).map .strs
   | .bytes s => some (.bytes s)
+  | .float b => some (.float b)
   | _ => none
 
 /-- one step of a session: `L<hex>` literal, `E:<codec>:<slot>` encode, `D:<codec>:<slot>` decode -/
@@ -259,6 +261,7 @@ def showGoVal : GoVal → String
   | .int i => "i" ++ showInt i
   | .bool b => if b then "t" else "f"
   | .strs l => "l" ++ toString l.length ++ String.join (l.map fun s => " s" ++ toHexField s)
+  | .float b => "d" ++ toString b
 
 def showContents : Obj → String
   | .val v => showVal v
@@ -347,6 +350,39 @@ def handle : List String → String
     match fromHex subj, fromHex lit, fromHex repl with
     | some s, some l, some r => toHexField (regexpReplaceAllLit s l r) ++ "\t" ++ toHexField (stringsReplaceAll s l r)
     | _, _, _ => "error\tbad-request"
+  | ["wglue", mod, name, args, res] =>
+    -- a hand-written wrapper of the wider inventory around a Go call whose outcome is `res`
+    -- (`panic`, `error`, or a value); a byte_slice method and a body of shape `other` are
+    -- not modelled further: they answer `val n` here and the reply names the shape
+    match findWide mod name, parseField args with
+    | some w, some (.list xs) =>
+      let f : GoFunE := fun _ =>
+        if res = "panic" then .panic
+        else if res = "error" then .error
+        else match (parseField res).bind goValOf with
+          | some g => .val g
+          | none => .panic
+      let tag := match w.shape with
+        | .direct => "direct"
+        | .method m => "method:" ++ m
+        | .other => "other"
+      tag ++ "\t" ++ showOut (wWrap w f (fun _ _ => .val .nil) (fun _ => .val .nil) (Vals.toList xs))
+    | none, _ => "nosig"
+    | _, _ => "error\tbad-value"
+  | ["winv"] =>
+    " ".intercalate (wideSigs.map fun w => w.mod ++ "." ++ w.sig.name ++ ":" ++
+      (match w.shape with | .direct => "direct" | .method _ => "method" | .other => "other"))
+  | ["itoa", i] =>
+    match intOfChars i.toList with
+    | some i => toHexField (itoa i)
+    | none => "error\tbad-int"
+  | ["atoi", x] =>
+    match fromHex x with
+    | some b =>
+      match atoi b with
+      | some i => "ok\t" ++ showInt i
+      | none => "reject"
+    | none => "error\tbad-hex"
   | ["panics", name, args] =>
     match findSig name, parseField args with
     | some sig, some (.list xs) =>
